@@ -23,7 +23,7 @@ Init ==
   /\ CacheInit(d0, c0)
 
 Next ==
-  /\ \E k \in Keys : Hit(k) \/ Save(k) \/ \E s \in BOOLEAN : Miss(k, s)
+  /\ \E k \in Keys : Hit(k) \/ Save(k) \/ Shortcut(k) \/ \E s \in BOOLEAN : Miss(k, s)
   /\ UNCHANGED <<d0, c0>>
 Spec == Init /\ [][Next]_vars
 
